@@ -12,6 +12,7 @@ import (
 	"strings"
 	"sync"
 	"sync/atomic"
+	"time"
 
 	imap "github.com/emersion/go-imap/v2"
 	"github.com/emersion/go-imap/v2/imapserver"
@@ -22,6 +23,17 @@ import (
 
 var run *vk.Run
 var universe = refmodel.Universe()
+
+// thinUniverse: every 5th message of the universe (used for the longest key sequences only)
+var thinUniverse = func() []*refmodel.Msg {
+	var out []*refmodel.Msg
+	for i, m := range universe {
+		if i%5 == 0 {
+			out = append(out, m)
+		}
+	}
+	return out
+}()
 
 type operand struct {
 	name string
@@ -361,7 +373,13 @@ func (w *worker) search1(seq []key) (string, map[string]interface{}) {
 		return "search-cmd-no-single-backend-call:", detail
 	}
 	crit := calls[before].Args[1].(imap.SearchCriteria)
-	for i, m := range universe {
+	// sequences of 4 keys are judged on a thinned universe (every 5th message; checked at start-up to
+	// still separate every key of the alphabet from every other); shorter ones on the full universe
+	uni := universe
+	if len(seq) >= 4 {
+		uni = thinUniverse
+	}
+	for i, m := range uni {
 		want := true
 		for _, k := range seq {
 			if !k.sem(m) {
@@ -511,6 +529,7 @@ func main() {
 		run.Finish()
 	}
 
+	t0 := time.Now()
 	// A. pairs
 	left := leaves
 	if run.Thorough() {
@@ -525,6 +544,7 @@ func main() {
 	})
 	run.AddEvals(pairs)
 	run.Set("and_pairs", pairs)
+	fmt.Fprintf(os.Stderr, "c19: %d pairs done, t=%s\n", pairs, time.Since(t0))
 	// non-trivial: pairs where both operands are non-empty and the intersection differs from both
 	var nt int64
 	for _, a := range left {
@@ -566,6 +586,29 @@ func main() {
 
 	// C. server parser
 	ks := keys()
+	for i := range ks {
+		for j := range ks {
+			if i >= j {
+				continue
+			}
+			full, thin := false, false
+			for _, m := range universe {
+				if ks[i].sem(m) != ks[j].sem(m) {
+					full = true
+					break
+				}
+			}
+			for _, m := range thinUniverse {
+				if ks[i].sem(m) != ks[j].sem(m) {
+					thin = true
+					break
+				}
+			}
+			if full && !thin {
+				run.EngineError("thinned universe does not separate %q from %q", ks[i].wire, ks[j].wire)
+			}
+		}
+	}
 	depth := 3
 	if run.Thorough() {
 		depth = 4
@@ -583,7 +626,29 @@ func main() {
 			rec(append(prefix, k), left-1)
 		}
 	}
-	rec(nil, depth)
+	rec(nil, 3)
+	if depth >= 4 {
+		// sequences of 4 keys over one representative per key class (every other key of the alphabet)
+		var reps []key
+		for i, k := range ks {
+			if i%2 == 0 {
+				reps = append(reps, k)
+			}
+		}
+		var rec4 func(prefix []key)
+		rec4 = func(prefix []key) {
+			if len(prefix) == 4 {
+				seqs = append(seqs, append([]key{}, prefix...))
+				return
+			}
+			for _, k := range reps {
+				rec4(append(prefix, k))
+			}
+		}
+		rec4(nil)
+		run.Set("search_key_alphabet_depth4", int64(len(reps)))
+	}
+	fmt.Fprintf(os.Stderr, "c19: %d search commands to run, t=%s\n", len(seqs), time.Since(t0))
 	nw := 16
 	var wg sync.WaitGroup
 	var next int64 = -1
@@ -608,7 +673,7 @@ func main() {
 	run.Set("search_key_alphabet", int64(len(ks)))
 	run.NontrivialN(int64(len(seqs)))
 	run.Sample("search-command", "s1 SEARCH SMALLER 500 LARGER 50 NEW")
-	run.Rule = "A: every ordered pair (leaf or operand, operand) of criteria built from 32 basic leaves (each field at 2 values, incl. unset), their NOTs, 90 ORs and all 2-field conjunction records; B: all triples of basic leaves via And(And(a,b),c); oracle: independent matcher over a universe of messages (product of seq, uid, internal day, sent day/absent, size, flag sets, header/body variants) — And must match exactly the intersection and must not mutate its operand. C: every sequence of <= depth SEARCH keys from a 40-key alphabet sent to a real connection; the criteria handed to the backend must select exactly the messages satisfying every key. non-trivial = pairs whose intersection differs from both operands + distinct SEARCH commands"
+	run.Rule = "A: every ordered pair (leaf or operand, operand) of criteria built from 32 basic leaves (each field at 2 values, incl. unset), their NOTs, 90 ORs and all 2-field conjunction records; B: all triples of basic leaves via And(And(a,b),c); oracle: independent matcher over a universe of messages (product of seq, uid, internal day, sent day/absent, size, flag sets, header/body variants) — And must match exactly the intersection and must not mutate its operand. C: every sequence of <= 3 SEARCH keys from a 40-key alphabet (thorough: also every sequence of 4 keys over 20 representative keys, judged on a thinned universe) sent to a real connection; the criteria handed to the backend must select exactly the messages satisfying every key. non-trivial = pairs whose intersection differs from both operands + distinct SEARCH commands"
 	run.Exhaustive = true
 	run.Assume("dates are day-granular; ModSeq criteria are compared with empty metadata name/type (intersection = larger mod-sequence)")
 	run.Assume("aliasing between And's result and its operand is not checked (the statement does not speak about it); mutation of the operand by And itself is")
